@@ -9,14 +9,31 @@ pub fn apply(op: &str, a: Word, b: Word) -> Option<Word> {
     Some(match op { "add" => a + b, "sub" => a - b, "and" => a & b, "not" => !a, _ => return None })
 }
 
+/// every other entry point of the same operation (`+=`, `-=`, `&=` with a word, `+=`/`-=` with a `u16` or `i16`
+/// constant when the right operand is fully initialised) must give the operator's result
+pub fn variants_agree(op: &str, a: Word, b: Word) -> bool {
+    let Some(r) = apply(op, a, b) else { return true };
+    let same = |x: Word| x.verif_parts() == r.verif_parts();
+    let (bd, bi) = b.verif_parts();
+    match op {
+        "add" => { let mut x = a; x += b; let mut ok = same(x);
+            if bi == 0xFFFF { let mut y = a; y += bd; let mut z = a; z += bd as i16; ok = ok && same(y) && same(z); } ok }
+        "sub" => { let mut x = a; x -= b; let mut ok = same(x);
+            if bi == 0xFFFF { let mut y = a; y -= bd; let mut z = a; z -= bd as i16; ok = ok && same(y) && same(z); } ok }
+        "and" => { let mut x = a; x &= b; same(x) }
+        _ => true,
+    }
+}
+
 /// `wop <add|sub|and|not> d1 i1 d2 i2` -> `d i`
 pub fn exec(args: &[&str]) -> String {
     if args.len() != 5 { return "bad-op".into(); }
     let p: Vec<Option<u16>> = args[1..].iter().map(|s| u16::from_str_radix(s, 16).ok()).collect();
     if p.iter().any(|x| x.is_none()) { return "bad-op".into(); }
     let p: Vec<u16> = p.into_iter().map(|x| x.unwrap()).collect();
-    match catch(|| apply(args[0], w(p[0], p[1]), w(p[2], p[3]))) {
-        Ok(Some(r)) => { let (d, i) = r.verif_parts(); format!("{} {}", hex16(d), hex16(i)) }
+    match catch(|| { let (a, b) = (w(p[0], p[1]), w(p[2], p[3])); if !variants_agree(args[0], a, b) { return Some(None) } Some(apply(args[0], a, b)) }) {
+        Ok(Some(None)) => "assign-variant-mismatch".into(),
+        Ok(Some(Some(r))) => { let (d, i) = r.verif_parts(); format!("{} {}", hex16(d), hex16(i)) }
         Ok(None) => "bad-op".into(),
         Err(_) => "panic".into(),
     }
